@@ -576,6 +576,11 @@ func knownSysexSpace() {
 
 func main() {
 	ctx = engine.Start("C14", "model_checking")
+	ls.OnViolation = func(sig, what string) {
+		if ctx.SigCount(sig) < 3 {
+			ctx.Violation(sig, map[string]interface{}{"kind": "wrapper", "what": what})
+		}
+	}
 	if ctx.ReplayPath != "" {
 		replay()
 		return
